@@ -122,23 +122,54 @@ def _takeLocks(locks, cmdName, path, lockType, nolocks, ntry, verbose):
                 if verbose > 2:
                     print("Creating lock directory %s" % (lockDir), file=utils.stdinfo)
                 #
-                # OK, the lock directory exists.
+                # OK, the lock directory exists.  Put our lock file into it
                 #
-                # If we're a shared lock, we need to check that no-one holds an exclusive lock (or, if someone
-                # does hold the lock, that we're the holder's child)
+                lockFile = "%s-%s.%d" % (lockTypeName, utils.getUserName(), os.getpid())
+
+                try:
+                    fd = os.open(os.path.join(lockDir, lockFile), os.O_EXCL | os.O_RDWR | os.O_CREAT)
+                    os.close(fd)
+                except OSError as e:
+                    if e.errno == errno.ENOENT and i < ntry:
+                        continue        # a releaser has just removed the empty directory; make it again
+                    if e.errno != errno.EEXIST:
+                        raise
+
+                locks.append((lockDir, lockFile))
+
+                if verbose > 3:
+                    print("Creating lockfile %s" % (os.path.join(lockDir, lockFile)), file=utils.stdinfo)
                 #
-                # N.b. the check isn't atomic, but that's conservative (we don't care if the exclusive lock's
+                # and only now look who else is there: of two requests that exclude each other the one whose
+                # lock file came second is sure to see the other's.  (Looking first and creating the file
+                # afterwards let both of them through.)
+                #
+                # A shared lock must not meet an exclusive one, an exclusive lock must not meet any; except
+                # that a lock held by the process that we inherited EUPS_LOCK_PID from is ours too
+                #
+                # N.b. the check isn't atomic, but that's conservative (we don't care if the other lock's
                 # dropped while we're pondering its existence)
                 #
-                lockers = listLockers(lockDir, "exclusive*")
-                if len(lockers) > 0:
-                    if len(lockers) == 1 and \
-                       os.environ.get("EUPS_LOCK_PID", "-1") == \
-                       listLockers(lockDir, "exclusive*", getPids=True)[0]:
-                        pass
-                    else:
-                        raise RuntimeError(("Unable to take shared lock on %s: " +
-                                            "an exclusive lock is held by %s") % (d, " ".join(lockers)))
+                if lockType == LOCK_EX:
+                    globPattern = "*"
+                else:
+                    globPattern = "exclusive*"
+                known = ("%d" % os.getpid(), os.environ.get("EUPS_LOCK_PID", "-1"))
+
+                if len(listLockers(lockDir, globPattern, getPids=True, exclude=known)) > 0:
+                    msg = "Unable to take %s lock on %s: locks are held by %s" % \
+                          (lockTypeName, d, " ".join(listLockers(lockDir, globPattern, exclude=known)))
+
+                    giveLocks([locks.pop()], verbose) # withdraw our request
+
+                    if lockType == LOCK_EX and i < ntry:
+                        print("%s; retrying" % msg, file=utils.stdinfo)
+                        utils.stdinfo.flush()
+
+                        time.sleep(dt)
+                        continue
+
+                    raise RuntimeError(msg)
 
                 break                   # got the lock
 
@@ -148,27 +179,6 @@ def _takeLocks(locks, cmdName, path, lockType, nolocks, ntry, verbose):
             if "EUPS_LOCK_PID" not in os.environ: # remember the PID of the process taking the lock
                 os.environ["EUPS_LOCK_PID"] = "%d" % os.getpid()
                 os.putenv("EUPS_LOCK_PID", os.environ["EUPS_LOCK_PID"])
-            #
-            #
-            # Create a file in it
-            #
-            who = utils.getUserName()
-            pid = os.getpid()
-
-            lockFile = "%s-%s.%d" % (lockTypeName, who, pid)
-
-            try:
-                fd = os.open(os.path.join(lockDir, lockFile), os.O_EXCL | os.O_RDWR | os.O_CREAT)
-                os.close(fd)
-            except OSError as e:
-                if e.errno != errno.EEXIST:
-                    # should not occur
-                    raise
-
-            locks.append((lockDir, lockFile))
-
-            if verbose > 3:
-                print("Creating lockfile %s" % (os.path.join(lockDir, lockFile)), file=utils.stdinfo)
     #
     # Cleanup, even in the event of the user being rude enough to use kill
     #
@@ -248,8 +258,8 @@ def listLocks(path, verbose=0, noaction=False):
 
         print("%-30s %s" % (d + ":", " ".join(listLockers(lockDir))))
 
-def listLockers(lockDir, globPattern="*", getPids=False):
-    """List all the owners of locks in a lockDir"""
+def listLockers(lockDir, globPattern="*", getPids=False, exclude=()):
+    """List all the owners of locks in a lockDir, but for those whose PIDs (strings) are in exclude"""
     lockers = []
     for f in [os.path.split(f)[1] for f in glob.glob(os.path.join(lockDir, globPattern))]:
         mat = re.search(r"^(exclusive|shared)-(.+)\.(\d+)$", f)
@@ -258,6 +268,9 @@ def listLockers(lockDir, globPattern="*", getPids=False):
             continue
 
         lockType, who, pid = mat.groups()
+        if pid in exclude:
+            continue
+
         if getPids:
             lockers.append(pid)
         else:
